@@ -302,6 +302,74 @@ func poolHistoryScenario(w, length, bound int) Scenario {
 	return Scenario{Name: fmt.Sprintf("pool-history w=%d length<=%d", w, length) + boundName(bound), Bound: bound, Body: body, Check: stdCheck(func() string { return label })}
 }
 
+// poolOverlappingWaitsScenario: several Waits in progress at once.  A gated task keeps the pool
+// busy (so that Submit concurrent with Wait is legal); two helper threads and finally the main
+// thread each call Wait, with one more task submitted before each call; the gate opens at a moment
+// the scheduler chooses.  Every Wait — whichever round it belongs to — may return only after every
+// task submitted before it was called has finished.
+func poolOverlappingWaitsScenario(w, bound int) Scenario {
+	var label string
+	body := func() {
+		pool := flyt.NewWorkerPool(w)
+		const n = 4 // task 0 is the gated one
+		var finished, submitted [n]core.Cell[bool]
+		var released core.Cell[bool]
+		task := func(k int) func() {
+			return func() {
+				if k == 0 {
+					core.Block("gate", func() bool { return released.Peek() })
+					released.Get()
+				}
+				finished[k].Set(true)
+			}
+		}
+		submit := func(k int) {
+			pool.Submit(task(k))
+			submitted[k].Set(true)
+		}
+		var returned core.Cell[int]
+		wait := func(who string) {
+			var must []int
+			for k := 0; k < n; k++ {
+				if submitted[k].Get() {
+					must = append(must, k)
+				}
+			}
+			pool.Wait()
+			for _, k := range must {
+				if !finished[k].Get() {
+					core.Problem("%s: Wait returned while task %d, submitted before that Wait was called, has not finished", who, k)
+				}
+			}
+			returned.Set(returned.Get() + 1)
+		}
+		submit(0)
+		w1 := core.Go("waiter1", func() { wait("first waiter") })
+		core.Yield() // (a free switch: the waiter may get into its Wait before the next Submit, or not)
+		submit(1)
+		w2 := core.Go("waiter2", func() { wait("second waiter") })
+		core.Yield()
+		submit(2)
+		rel := core.Go("harness:releaser", func() { released.Set(true) })
+		submit(3)
+		wait("main")
+		core.Join(w1)
+		core.Join(w2)
+		core.Join(rel)
+		for k := 0; k < n; k++ {
+			if !finished[k].Get() {
+				core.Problem("task %d never ran", k)
+			}
+		}
+		pool.Close()
+		if live := core.WaitQuiescent(); len(live) > 0 {
+			core.Problem("after Wait+Close %d pool goroutine(s) never terminate: %s", len(live), strings.Join(live, ", "))
+		}
+		label = fmt.Sprintf("waits returned=%d", returned.Get())
+	}
+	return Scenario{Name: fmt.Sprintf("pool overlapping waits (three rounds) w=%d", w) + boundName(bound), Bound: bound, Body: body, Check: stdCheck(func() string { return label })}
+}
+
 func genC12(tier string) []Scenario {
 	var out []Scenario
 	kinds := func(n int) []string { // all task-kind strings of length n
@@ -320,8 +388,10 @@ func genC12(tier string) []Scenario {
 	for _, w := range []int{1, 2} {
 		if thorough {
 			out = append(out, poolHistoryScenario(w, 6, 2))
+			out = append(out, poolOverlappingWaitsScenario(w, 3))
 		} else {
 			out = append(out, poolHistoryScenario(w, 5, 1))
+			out = append(out, poolOverlappingWaitsScenario(w, 1))
 		}
 	}
 	ws := []int{1, 2, 0, -1}
